@@ -53,9 +53,8 @@ def run_enumeration(run, mode, configs, per_session_limit=None, torn=False):
                             xid += 1
                             jobs.append((vh, base, hist, states[s_idx], s_idx, dict(p, dbroot=""), "torn", k, seed, enc, profile, xid, recorded))
             xs = sx.parallel(sx.run_experiment, jobs)
-            bad = [x for x in xs if x.error]
-            vlib.require(len(bad) <= len(xs) // 20, "too many failed experiments: %s" % [b.error for b in bad[:3]])
-            # a killed child's events must be a prefix of the recorded session (deterministic child)
+            # a killed child's events must be a prefix of the recorded session (deterministic child); an
+            # experiment for which this does not hold even after its repetitions is given up, never judged
             for x in xs:
                 if x.error or x.desc["mode"] not in ("kill",):
                     continue
@@ -65,8 +64,11 @@ def run_enumeration(run, mode, configs, per_session_limit=None, torn=False):
                 cut = next((i for i, e in enumerate(got) if e["ev"] == "Crash"), len(got))
                 if got[:cut] != recorded[s_idx][:cut]:
                     k = next((i for i in range(cut) if i >= len(recorded[s_idx]) or got[i] != recorded[s_idx][i]), cut)
-                    raise vlib.MachineryError("killed child's calls are not a prefix of the recording (experiment %s): at %d got %s, recorded %s"
-                                              % (x.desc, k, got[k:k + 2], recorded[s_idx][k:k + 2]))
+                    x.error = "killed child's calls are not a prefix of the recording: at %d got %s, recorded %s" % (
+                        k, got[k:k + 2], recorded[s_idx][k:k + 2])
+            bad = [x for x in xs if x.error]
+            vlib.require(len(bad) <= max(2, len(xs) // 20), "too many failed experiments: %s" % [b.error for b in bad[:3]])
+            run.cov["experiments_given_up"] = run.cov.get("experiments_given_up", 0) + len(bad)
             verdicts, drift = sx.validate(run, xs, sc, "%s-%d" % (mode, ci))
             total += len(xs)
             run.count(len(xs))
@@ -128,6 +130,16 @@ def direct_oracle(x):
                 out.append((dict(base, kind="duplicate-day-dir"), "more than one directory for the same day: %s" % e["dir_names"]))
                 continue
             want = sorted(i for s_ in sure for i in s_)
+            # the state of the known finding "day directory without metadata" (first write-out of a day
+            # interrupted / failed before its commit point): an un-suffixed day directory whose
+            # .blockmeta does not exist, and every error observed is the failure to read that file
+            errs = [e[k] for k in ("reader_err", "query_err", "list_err") if e[k]]
+            nometa = (any(n.isdigit() for n in e.get("dir_names", [])) and errs and
+                      all("error reading metadata file" in m for m in errs) and
+                      any("no such file or directory" in m for m in errs))     # (messages are cut at 300 characters)
+            if nometa:
+                out.append(({"kind": "nometa-day"}, "day directory without metadata: %s" % errs[0][:200]))
+                continue
             for name, ids, err in (("reader", [b["id"] for b in e["reader"]], e["reader_err"]),
                                    ("query", [b["id"] for b in e["query"]], e["query_err"]),
                                    ("list", e["list_ids"], e["list_err"])):
